@@ -518,6 +518,11 @@ func NewPeerFromConfigStruct(pconf *Neighbor) *api.Peer {
 	if pconf.Transport.State.LocalAddress.IsValid() {
 		localAddress = pconf.Transport.State.LocalAddress
 	}
+	// The effective cluster id of a running route reflector client, else the configured one
+	clusterID := pconf.RouteReflector.Config.RouteReflectorClusterId
+	if pconf.RouteReflector.State.RouteReflectorClusterId.IsValid() {
+		clusterID = pconf.RouteReflector.State.RouteReflectorClusterId
+	}
 	remoteCap, err := apiutil.MarshalCapabilities(pconf.State.RemoteCapabilityList)
 	if err != nil {
 		return nil
@@ -653,7 +658,7 @@ func NewPeerFromConfigStruct(pconf *Neighbor) *api.Peer {
 		},
 		RouteReflector: &api.RouteReflector{
 			RouteReflectorClient:    pconf.RouteReflector.Config.RouteReflectorClient,
-			RouteReflectorClusterId: pconf.RouteReflector.State.RouteReflectorClusterId.String(),
+			RouteReflectorClusterId: clusterID.String(),
 		},
 		RouteServer: &api.RouteServer{
 			RouteServerClient: pconf.RouteServer.Config.RouteServerClient,
